@@ -22,7 +22,11 @@ Un(op, d, a) == Tick /\ loose' = [loose EXCEPT ![d] = 0] /\ hist' = Append(hist,
 SqN(d, a, n) == Tick /\ loose' = [loose EXCEPT ![d] = 0] /\ hist' = Append(hist, [op |-> "square_repeatdly", d |-> d, a |-> a, n |-> n])
 Obs(op, a) == Tick /\ UNCHANGED loose /\ hist' = Append(hist, [op |-> op, a |-> a])
 Eq(a, b) == Tick /\ UNCHANGED loose /\ hist' = Append(hist, [op |-> "eq", a |-> a, b |-> b])
+\* the same value held in two limb representations must compare equal: d := from_bytes(to_bytes(a)); a == d; d == a
+EqSame(d, a) == /\ d # a /\ nops + 3 <= MaxOps /\ nops' = nops + 3 /\ loose' = [loose EXCEPT ![d] = 0]
+                /\ hist' = hist \o <<[op |-> "recanon", d |-> d, a |-> a], [op |-> "eq", a |-> a, b |-> d], [op |-> "eq", a |-> d, b |-> a]>>
 Next == \/ \E d \in Regs, i \in 1..NPool : Load(d, i)
+        \/ \E d, a \in Regs : EqSame(d, a)
         \/ \E d, a, b \in Regs : Lin2("add", d, a, b) \/ Lin2("sub", d, a, b) \/ Mul(d, a, b)
         \/ \E d, a \in Regs : Neg(d, a) \/ Un("square", d, a) \/ Un("square_and_double", d, a) \/ Un("invert", d, a) \/ Un("pow25523", d, a)
         \/ \E d, a \in Regs, n \in {1, 2, 5} : SqN(d, a, n)
